@@ -1,9 +1,8 @@
 """Native triage for contracts/c09_edits.py: the solver's counter-models are rebuilt as real datasets (writer.merge over
 fastparquet-written files) and the real functions are run on them.
   - C09-P-sort-part-names-number-collision (open known finding): must still reproduce (CONFIRMED);
-  - C09-P-overwrite-timestamp-partition-text / C09-P-overwrite-float32-partition-text (open): must reproduce (CONFIRMED);
-  - the two defects repaired in /repo (7ff1610 partial removal refused for every dataset, 75dfd7f every row group of a renamed file
-    is relabelled): the repaired behaviour is asserted (REPAIRED), the old failure would print STILL BROKEN and exit 1.
+  - the defects repaired in /repo (7ff1610 partial removal refused for every dataset, 75dfd7f every row group of a renamed file
+    is relabelled, 1c32364 overwrite on Timestamp / float32 partitions replaces the partition): the repaired behaviour is asserted (REPAIRED), the old failure would print STILL BROKEN and exit 1.
    tools/c09edits_native.py      (touches only a temp directory)"""
 import os, shutil, sys, tempfile
 import pandas as pd
@@ -71,8 +70,8 @@ try:
     ok = got == [5, 6] and files(d) == ["a=2/part.1.parquet"]
     bad += 0 if ok else 1
     print("remove whole file:", "ok" if ok else "BROKEN", "| files", files(d), "| read-back", got)
-    # overwrite.partition_text_conventions_agree[datetime64 ...] / [float32 (inexact decimals)] (open known findings): real write +
-    # write(append='overwrite'); the overwritten partition keeps its old rows
+    # overwrite.partition_text_conventions_agree[datetime64 ...] / [float32 (inexact decimals)] (repaired 1c32364): real write +
+    # write(append='overwrite') must replace exactly the overwritten partition
     import numpy as np, warnings
     warnings.filterwarnings("ignore")
     def ow(name, fid, col1, col2, expect_defect):
@@ -85,8 +84,10 @@ try:
               "| dirs", sorted(x for x in os.listdir(d) if not x.startswith("_")), "| read-back x", got)
         return defect == expect_defect
     ts = pd.to_datetime(["2020-01-01", "2020-01-01", "2021-06-01", "2021-06-01"])
-    ow("ts", "C09-P-overwrite-timestamp-partition-text", ts, ts[:2], True)
-    ow("f32", "C09-P-overwrite-float32-partition-text", np.array([0.1, 0.1, 2.5, 2.5], dtype="float32"), np.array([0.1, 0.1], dtype="float32"), True)
+    bad += 0 if ow("ts", "fixed-C09-overwrite-timestamp-partition-text (repaired 1c32364)", ts, ts[:2], False) else 1
+    ts2 = pd.to_datetime(["2020-01-01 12:00:00", "2020-01-01 12:00:00", "2021-06-01 01:02:03.000123", "2021-06-01 01:02:03.000123"], format="mixed")
+    bad += 0 if ow("ts2", "fixed-C09-overwrite-timestamp-partition-text, values with time (repaired 1c32364)", ts2, ts2[:2], False) else 1
+    bad += 0 if ow("f32", "fixed-C09-overwrite-float32-partition-text (repaired 1c32364)", np.array([0.1, 0.1, 2.5, 2.5], dtype="float32"), np.array([0.1, 0.1], dtype="float32"), False) else 1
     bad += 0 if ow("bool", "overwrite on a bool partition (agrees)", [True, True, False, False], [True, True], False) else 1
     bad += 0 if ow("f64", "overwrite on a float64 partition (agrees)", [0.1, 0.1, 2.5, 2.5], [0.1, 0.1], False) else 1
 finally:
